@@ -264,7 +264,7 @@ static long long printedError(const FloatObs& f) {
   __float128 e = lit > x ? lit - x : x - lit;
   __float128 scale = fabsq(x) > 1 ? fabsq(x) : 1;
   __float128 r = e / scale * 1e12Q;
-  if (r > 1e15Q) return 1000000000000000LL;
+  if (!(r < 2e9Q)) return 2000000000LL;   // TLC integers are 32 bit: cap (also catches NaN)
   return (long long)ceilq(r);
 }
 
@@ -452,7 +452,7 @@ int main(int argc, char** argv) {
       for (auto& f : floats) {
         if (!std::isnan(f.x) && !std::isinf(f.x)) {
           mj::Value e = mj::Value::mkObj();
-          e.set("k", mj::Value::mkInt(f.k));
+          e.set("k", mj::Value::mkInt(ARDUINOJSON_USE_DOUBLE ? f.k : 4));   // single-precision storage: float bound
           e.set("err", mj::Value::mkInt(printedError(f)));
           ferr.a.push_back(e);
         }
@@ -465,8 +465,22 @@ int main(int argc, char** argv) {
       bool rtjsonok = true, convok = true;
       if (cls != "jsonraw") {
         JsonDocument d2(&alloc);
-        if (deserializeMsgPack(d2, mp, DeserializationOption::NestingLimit(255)) != DeserializationError::Ok) rtmp = "\xc1";
-        else { rtmp.clear(); serializeMsgPack(d2, rtmp); }
+        // the round trip goes through a caller-supplied buffer every other time (both directions)
+        bool viaBuffer = (salt >> 9) % 2 == 0;
+        std::vector<unsigned char> b1(mp.size() + 8, 0x7e);
+        DeserializationError e2 = DeserializationError::Ok;
+        if (viaBuffer) {
+          size_t n1 = serializeMsgPack(doc, b1.data(), b1.size());
+          e2 = deserializeMsgPack(d2, b1.data(), n1, DeserializationOption::NestingLimit(255));
+        } else {
+          e2 = deserializeMsgPack(d2, mp, DeserializationOption::NestingLimit(255));
+        }
+        if (e2 != DeserializationError::Ok) rtmp = "\xc1";
+        else if (viaBuffer) {
+          std::vector<unsigned char> b2(mp.size() + 8, 0x7e);
+          size_t n2 = serializeMsgPack(d2, b2.data(), b2.size());
+          rtmp.assign(reinterpret_cast<const char*>(b2.data()), n2);
+        } else { rtmp.clear(); serializeMsgPack(d2, rtmp); }
       }
       if (cls == "plain") {
         JsonDocument d3(&alloc);
@@ -475,6 +489,11 @@ int main(int argc, char** argv) {
         JsonDocument da(&alloc), db(&alloc);
         std::string mpa, mpb;
         convok = deserializeJson(da, json, DeserializationOption::NestingLimit(255)) == DeserializationError::Ok;
+        if ((salt >> 10) % 2 == 0) {  // through a char array
+          std::vector<char> cb(mp.size() + 64, 0x7e);
+          size_t nn = serializeMsgPack(da, cb.data(), cb.size());
+          mpa.assign(cb.data(), nn);
+        } else
         serializeMsgPack(da, mpa);
         convok = convok && deserializeMsgPack(db, mpa, DeserializationOption::NestingLimit(255)) == DeserializationError::Ok;
         serializeMsgPack(db, mpb);
